@@ -83,6 +83,7 @@ pub fn tables() -> Vec<Table> {
 		Table { name: "zero-padded ids next to the plain number", header: vec!["data_id", "town"], rows: vec![vec!["007", "seven padded"], vec!["042", "forty-two padded"], vec!["9", "nine"], vec!["-08", "minus eight padded"]] },
 		Table { name: "numbers written with many digits (longer than any 64-bit integer text)", header: vec!["data_id", "slope", "big"], rows: vec![vec!["3.500000000000000000000", "-0.00012345678901234567", "12345678901234567890.5"], vec!["2.0000000000000000000000", "0.100000000000000000000000001", "-0.000000000000000000000001"], vec!["x1", "1.000000000000000000000", "000000000000000000000000.5"]] },
 		Table { name: "text with blanks and tabs at its ends, in the middle and in the last column", header: vec!["data_id", "lead", "trail"], rows: vec![vec!["x1", " lead", "Main St. "], vec!["x2", "tab\t", "two  blanks  "], vec!["7", "mid dle", "\ttab first"], vec!["x3", " ", "  "]] },
+		Table { name: "a record whose cells are all empty (the id is the empty text) between ordinary records", header: vec!["data_id", "v"], rows: vec![vec!["x1", "one"], vec!["", ""], vec!["x2", "two"]] },
 		Table { name: "numeric ids written as integers and as decimals", header: vec!["data_id", "label"], rows: vec![vec!["2", "two"], vec!["5.0", "five"], vec!["3.5", "three and a half"], vec!["4.0", "four"], vec!["-6", "minus six"], vec!["7", "seven"]] },
 	]
 }
@@ -197,6 +198,10 @@ pub fn catalogue() -> Vec<(String, Vec<MLayer>)> {
 		],
 	));
 	v.push((
+		"layer a whose id values include the empty text".into(),
+		vec![layer("a", &["id", "k"], vec![s(""), s("x1"), s("kept")], vec![feat(Some(41), &[0, 0, 1, 2], 1, point(1, 1)), feat(Some(42), &[0, 1], 1, point(2, 2)), feat(Some(43), &[1, 2], 1, point(3, 3))])],
+	));
+	v.push((
 		"layer a of version 3 with id key, second layer of version 5, third of version 2 (any version number is a valid uint32)".into(),
 		vec![
 			MLayer { version: 3, ..layer("a", &["id", "k"], vec![s("x1"), s("old"), s("x2")], vec![feat(Some(31), &[0, 0, 1, 1], 1, point(1, 1)), feat(Some(32), &[0, 2], 1, point(2, 2))]) },
@@ -264,7 +269,7 @@ pub fn catalogue() -> Vec<(String, Vec<MLayer>)> {
 pub fn run(ctx: Arc<Ctx>) {
 	ctx.rule(
 		"catalogue: C10's 12 tiles + tiles around layer 'a' with an id key (ids as string / int64 / sint64 / uint64 / float / double with integral and fractional values, float vs double, unknown geometry type, duplicate keys/values, unused entries, untouched second layer) + all key tables of length <= 3 over {id,k}; \
-		 x 8 data tables (string ids, numeric ids as integers and decimals, zero-padded ids, numbers written with more than 20 digits, text with blanks and tabs at its ends) x 2^3 options (replace, remove_non_matching, include_id) x layer name {a, absent} x source compression; reference join on the independently decoded form; plus decode -> encode of every catalogue tile through the repository's VectorTile (incl. ids / values / coordinates / string lengths at every border of the varint encoding, and tiles whose length prefixes run through 2^7, 2^14, 2^21); plus the bounded-exhaustive small-layer family (5 key tables x 4 value tables x feature lists with every tag list of <= 2 pairs; all 409) joined on key k under all 16 (options, layer name) configurations; plus data files in every documented CSV layout (quoted cells with separators / doubled quotes / line breaks / non-ASCII text, CRLF, blank lines, missing final line end: 32 layouts) and long tables whose cells of interest are cut at every byte by the 4096 / 8192 byte borders of the reader's buffer. \
+		 x 9 data tables (a record of empty cells, string ids, numeric ids as integers and decimals, zero-padded ids, numbers written with more than 20 digits, text with blanks and tabs at its ends) x 2^3 options (replace, remove_non_matching, include_id) x layer name {a, absent} x source compression; reference join on the independently decoded form; plus decode -> encode of every catalogue tile through the repository's VectorTile (incl. ids / values / coordinates / string lengths at every border of the varint encoding, and tiles whose length prefixes run through 2^7, 2^14, 2^21); plus the bounded-exhaustive small-layer family (5 key tables x 4 value tables x feature lists with every tag list of <= 2 pairs; all 409) joined on key k under all 16 (options, layer name) configurations; plus data files in every documented CSV layout (quoted cells with separators / doubled quotes / line breaks / non-ASCII text, CRLF, blank lines, missing final line end: 32 layouts) and long tables whose cells of interest are cut at every byte by the 4096 / 8192 byte borders of the reader's buffer. \
 		 non-trivial = (tile, table, options) where the reference join changes at least one feature",
 	);
 	let cat = catalogue();
@@ -461,6 +466,7 @@ pub fn run(ctx: Arc<Ctx>) {
 	});
 	systematic(&ctx, &work.0);
 	csv_layouts(&ctx, &work.0, &cat);
+	flag_spellings(&ctx, &work.0, &cat);
 	ctx.sample(json!({"catalogue_size": cat.len(), "example_tile": cat[12].0, "tables": tabs.iter().map(|t| t.name).collect::<Vec<_>>()}));
 	ctx.outcome_n("pipeline configurations", jobs.len() as u64);
 	ctx.outcome_n("decode -> encode round trips", cat.len() as u64);
@@ -601,6 +607,41 @@ fn csv_layouts(ctx: &Arc<Ctx>, work: &std::path::Path, cat: &[(String, Vec<MLaye
 		}
 	});
 	ctx.outcome_n("data file layouts (quoting x line ends x blank lines; long tables cut by the read buffer at every byte)", files.len() as u64);
+}
+
+
+/// Other spellings of the boolean options (TRUE, True, yes, 1, ...): a spelling is either refused when the pipeline is
+/// built or means what its lower-case form means - it is never silently read as the opposite.
+fn flag_spellings(ctx: &Arc<Ctx>, work: &std::path::Path, cat: &[(String, Vec<MLayer>)]) {
+	let (tname, tile) = &cat[cat.iter().position(|(n, _)| n.starts_with("layer a with id key")).expect("id tile")];
+	let raw = mvt::encode_tile(tile);
+	let decoded = mvt::decode_tile(&raw).unwrap();
+	let table = &tables()[0];
+	let rt = crate::memsource::runtime(1);
+	let mut n = 0u64;
+	for (spelling, meaning) in [("TRUE", true), ("True", true), ("tRuE", true), ("1", true), ("yes", true), ("YES", true), ("FALSE", false), ("False", false), ("0", false), ("no", false), ("NO", false)] {
+		for which in 0..3usize {
+			let opts = Opts { replace: which == 0 && meaning, remove: which == 1 && meaning, include_id: which == 2 && meaning };
+			let text = |i: usize| if i == which { spelling.to_string() } else { "false".to_string() };
+			let want = reference(&decoded, "a", "id", table, &opts);
+			let mut tiles = TileMap::new();
+			tiles.insert((4, 3, 2), raw.clone());
+			let fac = pipeline::factory(vec![MemSource::new("s", tiles, TileFormat::PBF, TileCompression::Uncompressed)], work);
+			let vpl = format!("from_container filename=\"mem:0\" | vectortiles_update_properties data_source_path=\"t0.csv\" layer_name=\"a\" id_field_tiles=\"id\" id_field_data=\"data_id\" replace_properties={} remove_non_matching={} include_id={}", text(0), text(1), text(2));
+			ctx.eval();
+			n += 1;
+			let case = json!({"kind": "flag spelling", "tile": tname, "vpl": vpl});
+			let Ok(op) = pipeline::build_op(&rt, &fac, &vpl) else { continue }; // refused: fine
+			if let Ok(Ok(Some(b))) = catch(|| rt.block_on(AnySrc::Op(op).lookup((4, 3, 2)))) {
+				if let Ok(got) = mvt::decode_tile(&b) {
+					if let Some((clause, why)) = compare(&got, &want, "a") {
+						ctx.violation(&format!("{clause} (option spelled '{spelling}' is accepted but not read as {meaning})"), &format!("{vpl}: {why}"), case);
+					}
+				}
+			}
+		}
+	}
+	ctx.outcome_n("spellings of boolean options x option", n);
 }
 
 /// The bounded-exhaustive small layers of `mvt::small_layers` (every key/value table layout, every tag
